@@ -29,7 +29,7 @@ def pid1_name():
 
 PID1 = pid1_name()
 
-NAME_POOL = [b"alpha", b"alph", b"alphab", b"a", b"with space", b"two  spaces", b"(paren)", b"par)en", b"pa(ren", b"))((", b"fifteen-bytes-xx", b"fifteen-bytes-xxyz",
+NAME_POOL = [b"", b"alpha", b"alph", b"alphab", b"a", b"with space", b"two  spaces", b"(paren)", b"par)en", b"pa(ren", b"))((", b"fifteen-bytes-xx", b"fifteen-bytes-xxyz",
              b"x" * 15, b"x" * 14, b"UPPER", b"upper", b"dot.name", b"dash-name", b"tab\there", b"trail ", b" lead", b"0", b"12345", b"name:colon", b"cron", b"sshd",
              b"systemd", b"init", b"S", b"R (x) S", b") R 1 ("]
 
@@ -108,7 +108,7 @@ def script_fn(c, B, s):
     if c["mode"] == "hidden":
         s.raw("nostate")
         s.raw("hideproc")
-    s.raw("chain " + ",".join(x.hex() for x in c["chain"] + [c["leaf"]]))
+    s.raw("chain " + ",".join((x.hex() or "-") for x in c["chain"] + [c["leaf"]]))
     s.conf(b"[snoopy]\nmessage_format = \"P%d\"\noutput = devnull\nfilter_chain=\"exclude_spawns_of:%s\"\n" % (c["id"], c["prime"]))
     s.call(c["id"] + 5000000, "execve", b"/bin/prime", [b"prime"], [b"E=1"], -1, 2)
     s.conf(conf)
@@ -132,7 +132,14 @@ def check_fn(c, evs, B):
     if not logged and dg != []:
         B.F.violation("C15:unexpected-record", "datagrams %r" % dg[:2], wit)
         return
-    names = {kname(x) for x in c["chain"]} | {a.encode("latin-1") for a in ABOVE}
+    # ancestors from the leaf upwards: chain reversed, then the harness's real ancestors.  A process without a name cannot be
+    # matched against anything; what a walk does once it meets one is left open (everything above it is "may or may not count")
+    upward = [kname(x) for x in reversed(c["chain"])]
+    nameless = upward.index(b"") if b"" in upward else None
+    names = set(upward if nameless is None else upward[:nameless])
+    above_nameless = set() if nameless is None else (set(upward[nameless + 1:]) | {a.encode("latin-1") for a in ABOVE})
+    if nameless is None:
+        names |= {a.encode("latin-1") for a in ABOVE}
     items = {x for x in c["lst"] if x != b""}
     if c.get("second") is not None:
         items.add(c["second"])
@@ -142,6 +149,9 @@ def check_fn(c, evs, B):
         want = not (names & items)
     B.count("logged" if logged else "dropped")
     B.count("mode:" + c["mode"])
+    if c["mode"] != "hidden" and want and (above_nameless & items):
+        B.count("open_above_nameless_ancestor")
+        return
     if logged != want:
         if c["mode"] == "hidden":
             key = "dropped-although-tree-unreadable"
